@@ -30,7 +30,7 @@ def floors(tier):
     q = tier == "quick"
     return {"enc.crlf": 20000 if q else 500000, "enc.cr": 20000 if q else 500000, "enc.mixed": 10000, "nul.twins": 10000, "tab_a.twins": 3000,
             "tab_b.twins": 150000 if q else 3000000, "tab_b.pattern.QQ": 2000, "tab_b.pattern.QL": 2000, "tab_b.pattern.LQ": 2000, "tab_b.pattern.LL": 2000,
-            "tab_b.pattern.QQQ": 500, "tab_b.with_container": 100000, "cr_nul_field_checks": 100000, "tab_b.continuation_line_twins": 5000}
+            "tab_b.pattern.QQQ": 500, "tab_b.with_container": 100000, "cr_nul_field_checks": 100000, "tab_b.continuation_line_twins": 5000, "tab_a.inline_continuation_twins": 20000, "tab_b.multiline_twins": 30000}
 
 
 def norm_allow(sd):
@@ -47,11 +47,16 @@ def norm_allow(sd):
                     if c["type"] == "code_inline":
                         # blank runs of a span continued on the next line; the one-space padding rule then strips differently
                         c["content"] = re.sub(r"[ \t]+", " ", c["content"]).strip(" ")
+                    elif c["type"] == "link_open" and isinstance((c["attrs"] or {}).get("title"), str):
+                        # a title continued on the next line is inline content after a line break as well
+                        c["attrs"] = dict(c["attrs"], title=re.sub(r"\n[ \t]+", "\n", c["attrs"]["title"]))
                     elif c["type"] in ("image", "text", "html_inline"):
                         c["content"] = re.sub(r"\n[ \t]+", "\n", c["content"])
                         if c["type"] == "image" and isinstance(c["attrs"].get("alt"), str):
                             # alt is text derived from the description at render time: the same allowance applies to it
                             c["attrs"] = dict(c["attrs"], alt=re.sub(r"\n[ \t]+", "\n", c["attrs"]["alt"]))
+                        if c["type"] == "image" and isinstance(c["attrs"].get("title"), str):
+                            c["attrs"] = dict(c["attrs"], title=re.sub(r"\n[ \t]+", "\n", c["attrs"]["title"]))
                     fix(c.get("children"))
             x["children"] = [dict(c) for c in x["children"]] if x["children"] else x["children"]
             fix(x["children"])
@@ -237,6 +242,64 @@ def run(ctx):
         if v != src:
             ctx.count("tab_a.twins")
             check_case(ctx, {"kind": "tab_a", "conf": rng.choice([W.PANEL[0], W.PANEL[2], W.PANEL[1], W.PANEL[4]]), "a": v, "b": src})
+    # inline constructs continued on an indented next line (title, destination, label, code span, raw HTML on the continuation line):
+    # the continuation line's indentation is spelled with tabs vs the column-exact spaces, inside quotes and list items too
+    CONT = ['[t](/u\n{L}"title") z', "[t](\n{L}/u\n{L}'ti') z", "![i](/s\n{L}(t)) z", '[r]: /u\n{L}"title"\n\n[r]', "[r]:\n{L}/u\n{L}'t'\n\n[r]", "`a\n{L}b` z",
+            "*a\n{L}b* z", "[t\n{L}t2](/u) z", 'a <b\n{L}c="d"> z', "[t][r\n{L}s]\n\n[r s]: /u", "a\\\n{L}b", "a  \n{L}b", "**a\n{L}**b**", '[t](/u "a\n{L}b") z',
+            "![a\n{L}b](/s\n{L}'t')", '[t](<u>\n{L}"x"\n{L}) z', "[a](/1\n{L}'p') [b](/2\n{L}(q))"]
+    runs = ["\t", " \t", "  \t", "   \t", "\t\t", "\t ", " \t ", "\t  \t", "    \t", "  \t  "]
+    for k in range(ctx.scale(30000, 800000)):
+        tmpl = rng.choice(CONT)
+        pre1, pren = rng.choice([("", ""), ("", ""), ("> ", "> "), ("> ", ">"), ("- ", "  "), ("1. ", "   "), ("> - ", ">   "), ("> > ", "> > "), ("> ", "")])
+        la, lb = [], []
+        for i, l in enumerate(tmpl.split("\n")):
+            pre = pre1 if i == 0 else (pren if l.strip() else pren.rstrip())
+            if "{L}" in l:
+                run_ = rng.choice(runs)
+                col, sp = len(pre), ""
+                for ch in run_:
+                    w = (4 - col % 4) if ch == "\t" else 1
+                    sp += " " * w
+                    col += w
+                la.append(pre + l.replace("{L}", sp))
+                lb.append(pre + l.replace("{L}", run_))
+            else:
+                la.append(pre + l)
+                lb.append(pre + l)
+        a, b = "\n".join(la) + "\n", "\n".join(lb) + "\n"
+        ctx.count("tab_a.twins")
+        ctx.count("tab_a.inline_continuation_twins")
+        # (configurations in which '>' and list markers are markers: in the 'zero' preset the blanks after them are paragraph text)
+        if check_case(ctx, {"kind": "tab_a", "conf": rng.choice([W.PANEL[0], W.PANEL[2], W.PANEL[1], W.PANEL[5]]), "a": a, "b": b}):
+            ctx.nontrivial("tab_cont", a, b)
+    # ---- (iii-b) on documents of 2-4 constructed lines: every line has its own segments and its own spelling ----------
+    # ('12)' is left out: an ordered marker other than 1 cannot interrupt a paragraph, so on a later line it is often paragraph text
+    # and the blanks after it are not structural)
+    segspace0 = [(i, m, b) for i in range(4) for m in MARKERS[:3] for b in range(1, 5)]
+    qsegs = [s for s in segspace0 if s[1] == ">"]
+    mconf = {"preset": "commonmark", "enable": ["table"]}
+    for k in range(ctx.scale(60000, 2000000)):
+        la, lb = [], []
+        quoteish = rng.random() < 0.6
+        nl = rng.randint(2, 4)
+        for i in range(nl):
+            while True:
+                segs = [rng.choice(qsegs if quoteish and rng.random() < 0.85 else segspace0) for _ in range(rng.choice([1, 1, 2]))]
+                if all(segs[j][2] + segs[j + 1][0] <= 4 for j in range(len(segs) - 1)):
+                    break
+            # (a fence is opened on the last line only: inside an open fence later lines are verbatim, their blanks not structural)
+            vs = variants(segs, rng.choice(["x", "x", "- z", "    c", "# h", "```" if i == nl - 1 else "x", "> q", "[r]: /u",
+                                            # (an empty list item cannot interrupt a paragraph: its marker and blanks would be paragraph text)
+                                            "" if segs[-1][1] == ">" else "x"]))
+            la.append(vs[0])
+            lb.append(rng.choice(vs))
+        if la == lb:
+            continue
+        a, b = "\n".join(la) + "\n", "\n".join(lb) + "\n"
+        ctx.count("tab_b.twins")
+        ctx.count("tab_b.multiline_twins")
+        if check_case(ctx, {"kind": "tab_b", "conf": mconf, "a": a, "b": b, "pattern": "multiline"}):
+            ctx.nontrivial("tab_multi", a, b)
     # ---- (iii-b) segment construction, enumerated --------------------------------------------------------------------
     segspace = [(i, m, b) for i in range(4) for m in MARKERS for b in range(1, 5)]
     idx = 0
